@@ -33,12 +33,12 @@ TIMEOUT = 900
 
 
 def cases(tier, seed):
-    forms = ["bare", "attr", "alias", "wrapped", "pkginit", "initroot", "chain", "pinned", "lambda", "factory", "xdeco", "nestedlocal", "prefix", "lrucache", "declared", "nowraps", "xpkg"]
+    forms = ["bare", "attr", "alias", "wrapped", "pkginit", "initroot", "chain", "pinned", "lambda", "factory", "xdeco", "nestedlocal", "prefix", "lrucache", "declared", "nowraps", "xpkg", "objdeco"]
     for form in forms:
         edges = all_edges(3, form)
         graphs = [(kinds, mask) for kinds in itertools.product(["memento", "plain"], repeat=2)
                   for mask in range(1 << len(edges))]
-        if tier == "quick" and form in ("lambda", "factory", "xdeco", "nestedlocal", "prefix", "lrucache", "declared", "nowraps", "xpkg"):  # quick: these forms without self-loops
+        if tier == "quick" and form in ("lambda", "factory", "xdeco", "nestedlocal", "prefix", "lrucache", "declared", "nowraps", "xpkg", "objdeco"):  # quick: these forms without self-loops
             loops = sum(1 << i for i, (u, v) in enumerate(edges) if u == v)
             graphs = [(kinds, mask) for kinds, mask in graphs if not mask & loops]
         if form == "xpkg":
@@ -125,6 +125,11 @@ def render_small(pkg, n, kinds, edges, form):
     for u in (range(n - 1, -1, -1) if form == "declared" else range(n)):
         L = texts[mod_of(u)]
         plain_as = form if (kinds[u] != "memento" and form in ("lambda", "factory")) else None
+        if kinds[u] == "memento" and form == "objdeco" and u > 0:
+            # every memento function but the root sits behind a decorator that is an object (a class with __call__ that
+            # records what it wraps the way functools.update_wrapper does)
+            L += ["class Wrap_n%d:" % u, "    def __init__(self, fn):", "        functools.update_wrapper(self, fn)", "        self.fn = fn",
+                  "    def __call__(self, *args, **kw):", "        return self.fn(*args, **kw)", "", "@Wrap_n%d" % u]
         if kinds[u] == "memento":
             # (form 'pinned': every memento function but the root declares its version explicitly)
             deco = "(version=\"p%d\")" % u if form == "pinned" and u > 0 else ""
@@ -261,6 +266,7 @@ def small_child(arg):
         attr = real.get(name, name)
         fn = (getattr(b, attr, None) or getattr(a, attr, None) or getattr(sys.modules.get(pkg + "_x.a"), attr, None)
               or getattr(sys.modules[pkg], attr))
+        fn = getattr(fn, "__wrapped__", fn) if not hasattr(fn, "dependencies") else fn  # (behind an object-style decorator)
         out[name] = unmap(observe(fn))
         if name == "n0":  # the same questions asked of a modifier clone of the root
             out["n0 (modifier clone)"] = unmap(observe(fn.force_local()))
